@@ -254,4 +254,16 @@ func init() {
 			return r.Progress && r.Probes["reader-stalled"] > 0 && (r.Faults["control-datagram-drop"] > 0 || r.Probes["zero-window-advertised"] > 0)
 		},
 	}
+	plans["C17"] = &propPlan{
+		Level: "exploration",
+		Items: []planItem{
+			{Scenario: "sched", Stratum: "", Quick: 1600, Thorough: 80000, PerJob: 16},
+		},
+		QuickBudget: 60 * time.Second, ThoroughBudget: 25 * time.Minute,
+		Rule: "evaluations = seeded simulated runs of the REAL TimedSched (1-8 workers, hook H3) with 1-6 submitter goroutines and 5-300 tasks: deadlines past / now / equal to or +-1 ns around the expiry of a queued task / near / far future (hours) / bursts, tasks that re-submit themselves, Close at a seeded point; yield points in Put, prepend and the workers are armed for seeded hit windows, and a goroutine parked there is released 0-3 ns of virtual time later in tape order, which orders 'timer fired' and 'task arrived' both ways. Oracle: every task submitted and due before Close runs exactly once, never before its deadline, and not later than max(deadline, submission) + 1 us + 4 ns per task (the cost of hook H3 and of the parking); after Close and settling nothing runs and no scheduler goroutine survives. Non-trivial = tasks ran and at least one special deadline kind or a parking fired; distinct = distinct event-log hashes",
+		Real: []string{"TimedSched: Put, prepend goroutine, sched workers, timer handling (timedsched.go) with hook H3"}, Stub: []string{"OS clock and timers (testing/synctest fake clock)", "goroutine scheduling (serialised driver + parked yield points)"},
+		Assumptions: append([]string{"asynctimerchan=1 is NOT covered: testing/synctest refuses to run with it, and there is no other fake clock for time.Timer (DESIGN.md section 9); the module's go directive makes asynctimerchan=0 the default", "tasks are instantaneous; a long-running task delaying others of the same worker is outside the statement"}, assumeCommon...),
+		WantProbes:  []string{"deadline-past", "deadline-now", "deadline-equal", "deadline-around-queued", "deadline-far-future", "scheduler-closed", "parked:sched.put", "parked:sched.prepend", "parked:sched.task"},
+		nontrivial:  func(r *proto.RunResult, nf int) bool { return r.Progress && nf > 0 },
+	}
 }
